@@ -309,9 +309,35 @@ def search(ctx):
                         os.symlink(os.path.join(tree.home, "nowhere"), bak)
                 else:
                     put(targets["log"], states["log"])
+                # the directory the log and the settings live in, and HOME itself
+                extra_env = None
+                hs = rr.random()
+                cl = os.path.join(tree.home, ".claude")
+                if hs < 0.06:
+                    states["home"] = "claude-is-file"
+                    shutil.rmtree(cl, ignore_errors=True)
+                    open(cl, "w").write("x")
+                elif hs < 0.12:
+                    states["home"] = "claude-dangling-symlink"
+                    shutil.rmtree(cl, ignore_errors=True)
+                    os.symlink(os.path.join(tree.root, "nowhere"), cl)
+                elif hs < 0.16:
+                    states["home"] = "claude-absent"
+                    shutil.rmtree(cl, ignore_errors=True)
+                elif hs < 0.2:
+                    states["home"] = "HOME=/dev/null"
+                    extra_env = {"HOME": "/dev/null"}
+                elif hs < 0.24:
+                    states["home"] = "HOME=nonexistent"
+                    extra_env = {"HOME": os.path.join(tree.root, "no", "such", "home")}
+                elif hs < 0.27:
+                    states["home"] = "HOME=a-file"
+                    hf = os.path.join(tree.root, "homefile")
+                    open(hf, "w").write("x")
+                    extra_env = {"HOME": hf}
                 before = tree.snapshot()
                 try:
-                    rc, out, err = tree.run(stdin)
+                    rc, out, err = tree.run(stdin, extra=extra_env)
                 except subprocess.TimeoutExpired:
                     rc, out, err = None, b"", b"timeout"
                 time.sleep(0.02)
@@ -321,6 +347,11 @@ def search(ctx):
                 if bad is None and new:
                     bad = "created outside the cache and log directories: " + ", ".join(os.path.relpath(p, tree.root) for p in new[:3])
                 res.append((value, stdin, states, rc, out, err, bad))
+                if states.get("home", "").startswith("claude-"):
+                    # put the directory back for the next input of this tree
+                    if os.path.islink(cl) or os.path.isfile(cl):
+                        os.unlink(cl)
+                    os.makedirs(cl, exist_ok=True)
         finally:
             tree.close()
         return res
